@@ -29,9 +29,15 @@ func (r *vrRollbacker) TransactionRollback(ctx context.Context, tr *Transaction,
 	return &sdcpb.TransactionSetResponse{}, nil
 }
 
+// vrTimerStopped: a timer that was started (every scenario starts it) and is no longer armed
 func vrTimerStopped(t *TransactionCancelTimer) bool {
-	if t == nil || t.done == nil {
+	if t == nil {
 		return false
+	}
+	t.doneMutex.Lock()
+	defer t.doneMutex.Unlock()
+	if t.done == nil {
+		return true
 	}
 	select {
 	case <-t.done:
@@ -193,6 +199,30 @@ func TestVerifReplayTypes(t *testing.T) {
 		}
 		if g2 != nil || e2 == nil || tm.transaction != a {
 			fail(fn, "exclusive", "occupied manager", fmt.Sprint(e2))
+		}
+	}
+	// a timer is stopped from two sides (the rollback run by the expired timer, and a Confirm or Cancel): the second Stop
+	// finds nothing to do
+	{
+		fn := "(*datastore/types.TransactionCancelTimer).Stop"
+		for i := 0; i < 200; i++ {
+			counts[fn]++
+			ct := NewTransactionCancelTimer(time.Hour, func() {})
+			vrCatch(fn, fmt.Sprintf("Start, Stop, Stop (run %d)", i), func() {
+				if err := ct.Start(); err != nil {
+					fail(fn, "stopped", "Start", err.Error())
+				}
+				ct.Stop()
+				ct.Stop()
+				if ct.Started() {
+					fail(fn, "stopped", "Start, Stop, Stop", "the timer still counts as started")
+				}
+				// and it can be armed again
+				if err := ct.Start(); err != nil {
+					fail(fn, "stopped", "Start, Stop, Stop, Start", err.Error())
+				}
+				ct.Stop()
+			})
 		}
 	}
 	for fn, n := range counts {
